@@ -166,6 +166,9 @@ pub struct Scenario {
     pub default_policy: Option<u8>,
     #[serde(default)]
     pub allow_override: Option<bool>,
+    /// interval of the cluster-metadata poller (ClusterConf request to every node); 0 = no polling
+    #[serde(default)]
+    pub poll_ms: u16,
 }
 
 #[derive(Clone, Debug, Serialize, PartialEq)]
@@ -1071,6 +1074,29 @@ pub fn run_scenario(sc: &Scenario) -> RunResult {
         // reads), whose oracle is the client-visible history: there the run continues so that the consequences of,
         // say, a log that lost acknowledged entries reach the reads.
         let stop_on_checkpoint = !sc.final_reads;
+        if sc.poll_ms > 0 {
+            // clients / operators polling cluster metadata from every node (ClusterConf requests), all the time
+            let net = it.w.net.clone();
+            let every = sc.poll_ms as u64;
+            let max_id = n + sc.learners as u32;
+            let h = tokio::spawn(async move {
+                loop {
+                    tokio::time::sleep(Duration::from_millis(every)).await;
+                    for id in 1..=max_id {
+                        if let Some((tx, _, _, _)) = net.endpoint_tx(id) {
+                            let (rtx, rrx) = MaybeCloneOneshot::new();
+                            if tx.try_send(d_engine_core::InboundEvent::ClusterConf(d_engine_proto::server::cluster::MetadataRequest {}, rtx)).is_ok() {
+                                tokio::spawn(async move {
+                                    let _ = tokio::time::timeout(Duration::from_secs(2), rrx).await;
+                                });
+                            }
+                        }
+                    }
+                }
+            });
+            it.client_tasks.push(h);
+            it.res.labels.insert("metadata_polling".into());
+        }
         for step in sc.steps.clone() {
             tokio::time::sleep(Duration::from_millis(step.dt_ms as u64)).await;
             it.apply_event(&step.ev).await;
